@@ -123,6 +123,12 @@ pub fn run(a: &Args, out: &mut Out) {
         // operand classes are drawn independently of the operation (k): unitary (pairing values) 1 in 5, else random / sparse / subfield
         let xa = match rng.gen_range(0..10) { 0 | 1 => unitary(&mut rng, &poolr), 2 | 3 => special(&mut rng, &poolq), _ => elem_bytes(&mut rng, &poolq, 12) };
         let xb = if rng.gen_range(0..7) == 0 { unitary(&mut rng, &poolr) } else { elem_bytes(&mut rng, &poolq, 12) };
+        // EQUAL operands (the same value in two variables), or operands differing in one F_q coefficient only
+        let xb = match rng.gen_range(0..12) {
+            0 => xa.clone(),
+            1 => { let mut t = xa.clone(); let l = 32 * rng.gen_range(0..12); t[l..l + 32].copy_from_slice(&elem_bytes(&mut rng, &poolq, 1)[..32]); t }
+            _ => xb,
+        };
         // inversion, powering, sparse multiplication and the final exponentiations see the special elements half of the time
         let xa = if [0, 2, 4, 5, 8].contains(&(k % 10)) && rng.gen::<bool>() { special(&mut rng, &poolq) } else { xa };
         let (fa, fb) = (fq12_from(&xa), fq12_from(&xb));
@@ -194,6 +200,7 @@ pub fn run(a: &Args, out: &mut Out) {
                     }
                     t
                 } else { yb };
+                let yb = if k % 80 == 47 { ya.clone() } else { yb };       // equal operands
                 // jointly sparse operands: the SAME F_q^2 coefficient (or the same F_q limb) vanishes in both
                 let (ya, yb) = if k % 20 == 17 {
                     let (mut ta, mut tb) = (ya.clone(), yb.clone());
